@@ -14,7 +14,6 @@ NA = {
  "C31": "concurrent shard workers with port latencies; no goroutine scheduler in the executor",
  "C37": "the property is the concurrency itself (ants pools, timers, close races)",
  "C38": "zstd, encoding/json canonical decoding and SHA-256 over streamed objects",
- "C39": "exactly-once argument runs through metadb.WriteBatch commits, durable applied-delta rows and async forwarding (Pebble)",
  "C41": "stop/drain races between goroutines and deadlines",
 }
 
@@ -122,6 +121,11 @@ claim("C40", "other",
 claim("C17", "model_checking",
       "Every channel-migration WriteBatch command executed through the real meta DB code (on the in-memory engine) from an arbitrary valid (task, runtime meta) pre-state: a leader transfer commits / a learner is promoted only with a drain proof matching the current fence version, channel epoch, leader epoch and leader under the task's own fence; after a cutover Abort is refused; no command touches another task's fence; a mismatching guard writes nothing; accepted steps keep the metadata valid; a second active task is refused. Known finding C17-F1 (Advance/Claim move a post-cutover task back to an abortable phase).",
       "One step from an arbitrary valid state plus cutover+abort and cutover+one command+abort histories; runtime-meta integers 0..64, three replica/ISR shapes (one in quick); pkg/db/internal/engine and commit replaced by in-memory / synchronous shims validated by the repository's own suites; encoding/json (task row) as identity codec; row checksum as uninterpreted CRC; two commands in one batch not explored. " + TB)
+
+
+claim("C39", "other",
+      "Slice (target-side exactly-once rule and ownership refusal only): through the real slot state machine and meta DB on the in-memory engine, a metadata write forwarded as a delta is applied exactly once when the same delta is replayed after a later delta - in a later batch (replay cache), inside one batch (pending map) and after a restart of the target (durable applied-delta record); a write applied directly and the same write applied as a delta give the same rows; ordinary writes for a hash slot the slot does not own are refused without effect.",
+      "The migration protocol across slots (outbox, forwarding, fence index, switch) is not encoded, so 'present exactly once in the target after the switch' is claimed only for the target's replay rule; 4 write kinds over a tiny id space; engine/commit shims; CRC uninterpreted. " + TB)
 
 def main():
     props = [json.loads(l) for l in open(os.path.join(ROOT, 'properties.jsonl'))]
